@@ -514,8 +514,12 @@ package spg
 //@   ensures [C02,C03] chars:       forall(int(k), trig(res[k]), 0 <= k && k < len(res) ==> clen(res[k]) == 1 && utf8ok(res[k]))
 //@   ensures [C02] nodup:           forall(int(i), int(j), trig(res[i], res[j]), 0 <= i && i < j && j < len(res) ==> res[i] != res[j])
 
-//@ func (CharRecipe).entropyWithRequired
+//@ func (CharRecipe).n
 //@   trusted
+//@   ensures [C07] count: res != nil && bigval(res) == countReq(pub(r), arr(r.RequireSets), off(r.RequireSets), len(r.RequireSets))
+
+//@ func (CharRecipe).entropyWithRequired
+//@   uses ENTROPYREQ-def
 //@   ensures [C07] value: res == entropyReq(pub(r), arr(r.RequireSets), off(r.RequireSets), len(r.RequireSets))
 
 //@ func (CharRecipe).SuccessProbability
